@@ -314,6 +314,13 @@ func (c *c14) requestObject(ch *kernel.Chooser) string {
 	outerType := "code"
 	ro := map[string]any{"iss": "jwt", "aud": []string{w.Issuer}, "client_id": "jwt", "response_type": "code",
 		"redirect_uri": "https://jwt.sim/callback", "scope": "openid email", "state": "from-object", "nonce": "nonce-object"}
+	if ch.Bool(1, 2) {
+		// every other parameter an object may carry: none of them may take effect unless the object is valid
+		for k, v := range map[string]any{"response_mode": "fragment", "code_challenge": "challenge-from-object", "code_challenge_method": "plain", "prompt": "login",
+			"max_age": 4242, "login_hint": "hint-object", "ui_locales": "de", "acr_values": "acr-object", "display": "page"} {
+			ro[k] = v
+		}
+	}
 	signer := "jwt"
 	label := "right"
 	for d := []int{0, 1, 1, 2}[ch.Int(4)]; d > 0; d-- {
@@ -369,7 +376,9 @@ func (c *c14) requestObject(ch *kernel.Chooser) string {
 		u, _ := url.Parse(r.Location)
 		created = w.Store.AuthReqSnapshot(u.Query().Get("authRequestID"))
 	}
-	overrode := created != nil && (created.State == "from-object" || created.Nonce == "nonce-object" || slices.Contains(created.Scopes, "email") || (created.RedirectURI != outerRedirect))
+	overrode := created != nil && (created.State == "from-object" || created.Nonce == "nonce-object" || slices.Contains(created.Scopes, "email") || (created.RedirectURI != outerRedirect) ||
+		created.ResponseMode == "fragment" || (created.Challenge != nil && created.Challenge.Challenge == "challenge-from-object") || slices.Contains(created.Prompt, "login") ||
+		(created.MaxAge != nil && *created.MaxAge == 4242))
 	errRedirectToObjectURI := r.Status == 302 && strings.HasPrefix(r.Location, fmt.Sprint(ro["redirect_uri"])) && fmt.Sprint(ro["redirect_uri"]) != outerRedirect
 	// reference validity of the object for this request
 	aud, _ := ro["aud"].([]string)
